@@ -182,6 +182,29 @@ CHECKS["C05"] = dict(
         "data-race defects were found by ThreadSanitizer only). Two threads missing on the same page both fill the same buffer with identical bytes: "
         "recorded in the evidence, not a violation.",
    technique="Lean 4 proof (invariant over all schedules) + lock-discipline monitor + cooperative-scheduler replay", design="§6 C05")
+CHECKS["C13"] = dict(
+   text="Lean proofs over a model that transcribes attr.c (newest-first node list standing for sibling lists and hash buckets, the hash function a "
+        "parameter): get-after-set and its frame, a wrong-typed set is a no-op, clear unsets the subtree and nothing else, a whole iteration visits each set "
+        "child exactly once, new_attr keeps ids distinct, lookup is sound for every hash function, clone fallback and shadowing, re-open keeps values with a "
+        "persistent descendant and drops the rest. Tie and property evaluation: random histories of all public attribute calls (get/typed get/set by path, "
+        "references and sub-references, iterators, clone/free, re-open) on real contexts over global keys, cpu.N, file.set.N and VMCOREINFO-created keys "
+        "with hash-bucket-colliding prefix keys, every answer compared with an independent Python dictionary and with the model (iteration order and "
+        "persist flags exactly).",
+   note=TB + "Lookup completeness, path creation, VMCOREINFO parsing, file.set.N, clone_attr_path and open as wholes are observed, not proved. Dynamic keys "
+        "created through a clone with a private dictionary are excluded (finding recorded under C15); findings overlay-clone-root, pagemap-clear-deadlock.",
+   technique="Lean 4 proof (dictionary laws of the attr.c model) + differential correspondence with an independent dictionary oracle", design="§6 C13")
+CHECKS["C15"] = dict(
+   text="Partial by design: proved for the transcribed functions, observed for the rest. Lean: a ledger semantics over event traces (cache get/insert/"
+        "discard/put, pread, mmap, malloc, free) of fcache_get_mmap/_read/_get/_pread/_get_chunk/_put_chunk, diskdump_get_page and diskdump_read_page with "
+        "every compression branch, cache_get_page, read_locked, addrxlat_get_page/put_page, with the environment's answers as an oracle: ledger soundness, "
+        "prefix closure, frame rule, per-function balance (net pin/allocation delta 0 on failure, exactly the documented hand-over on success), chunk and "
+        "page round trips, session_balanced — for all oracles, fault points, lengths and policies. Tie: link-time --wrap traces of forced paths (dry run, then "
+        "rerun with the n-th pread/mmap/malloc failing) compared with the model's traces. Property evaluation: after EVERY API call page-cache + mmap-cache "
+        "+ read-cache references = pages lent to addrxlat, no library-held blob pins, descriptors untouched (close/lseek/read interposed); after freeing "
+        "everything in random order under LeakSanitizer no heap block or mapping remains.",
+   note=TB + "That the model's `stuck` result is unreachable (fcache_get_chunk entry-array bound, loop fuel) is not proved (it would show as a trace "
+        "difference). Findings recorded: reopen-open-context, realloc-caches-lent, clone-dict-new-attrs.",
+   technique="Lean 4 proof (ledger balance of transcribed functions) + trace correspondence + reference-sum/leak monitors", design="§6 C15")
 NOT_YET = {}
 
 def main():
